@@ -59,14 +59,14 @@ type c18Obs struct {
 	SrvFinal   int  `json:"srv_final,omitempty"`
 	ConnectErr bool `json:"connect_err,omitempty"`
 	// e2e, while the session is up: successful pings so far / keep-alive bytes the server then saw in the XML stream (bounded wait)
-	MidWant     int    `json:"mid_want,omitempty"`
-	MidGot      int    `json:"mid_got,omitempty"`
-	LostWhileUp bool   `json:"lost_while_up,omitempty"` // e2e: Disconnected before the harness ended the session
-	RawBad      string `json:"raw_bad,omitempty"`       // e2e over TLS: first thing on the socket that is not a TLS record
-	DetectUs    int64  `json:"detect_us,omitempty"`     // ws: from the cut to the Disconnected event
-	PanicMsg    string `json:"panic_msg,omitempty"`     // the keep-alive goroutine panicked with this
-	Re          *c18ReObs `json:"re,omitempty"`         // kind re: sessions and loops on one client object
-	Wire        string `json:"wire,omitempty"`          // tcp/e2e: what the server read in the XML stream where keep-alives go
+	MidWant     int       `json:"mid_want,omitempty"`
+	MidGot      int       `json:"mid_got,omitempty"`
+	LostWhileUp bool      `json:"lost_while_up,omitempty"` // e2e: Disconnected before the harness ended the session
+	RawBad      string    `json:"raw_bad,omitempty"`       // e2e over TLS: first thing on the socket that is not a TLS record
+	DetectUs    int64     `json:"detect_us,omitempty"`     // ws: from the cut to the Disconnected event
+	PanicMsg    string    `json:"panic_msg,omitempty"`     // the keep-alive goroutine panicked with this
+	Re          *c18ReObs `json:"re,omitempty"`            // kind re: sessions and loops on one client object
+	Wire        string    `json:"wire,omitempty"`          // tcp/e2e: what the server read in the XML stream where keep-alives go
 }
 
 // kaIsWS: XML white space. A whitespace keep-alive is any non-empty run of it (the property
